@@ -494,6 +494,19 @@ def check_refusals(case, ctx: Ctx):
     ctx.label("refusal_" + kind)
     ctx.nt()
     bad = case.get("bad")
+    if case.get("edge_dtype"):
+        # the same malformed / valid specification as an integer array (unsigned types wrap around in differences)
+        bad = np.array(bad, dtype=case["edge_dtype"])
+        ctx.label("edge_dtype_" + case["edge_dtype"])
+    if kind == "valid_int_edges":
+        from physt._construction import calculate_1d_bins
+
+        b = ctx.call("integer edge array", calculate_1d_bins, data, bad)
+        want = [[float(a), float(c)] for a, c in zip(case["bad"][:-1], case["bad"][1:])]
+        require(np.asarray(b.bins, dtype=float).tolist() == want, "int_edges_differ_from_spec", f"{np.asarray(b.bins).tolist()} vs {want}")
+        sb = ctx.call("StaticBinning(integer pairs)", StaticBinning, np.array(want).astype(case["edge_dtype"]))
+        require(np.asarray(sb.bins, dtype=float).tolist() == want, "int_pairs_differ_from_spec", f"{np.asarray(sb.bins).tolist()} vs {want}")
+        return
     if kind in ("unsorted_edges", "duplicate_edge"):
         ctx.refused("h1 with " + kind, physt.h1, data, np.array(bad))
         ctx.refused("NumpyBinning with " + kind, NumpyBinning, np.array(bad))
@@ -523,7 +536,8 @@ def check_refusals(case, ctx: Ctx):
 @st.composite
 def refusal_cases(draw, tier="quick"):
     kind = draw(st.sampled_from(["unsorted_edges", "duplicate_edge", "overlapping_pairs", "zero_width_pair", "reversed_pair", "unsorted_pairs",
-                                 "shape_n3", "ndim3", "single_edge", "unknown_method", "q_and_bin_count", "nonpositive_width", "noninteger_bin_count"]))
+                                 "shape_n3", "ndim3", "single_edge", "unknown_method", "q_and_bin_count", "nonpositive_width", "noninteger_bin_count",
+                                 "valid_int_edges"]))
     data = draw(st.lists(st.floats(-5, 5, allow_nan=False), min_size=3, max_size=10))
     if max(data) == min(data):
         data = data + [min(data) + 1.0]
@@ -558,6 +572,41 @@ def refusal_cases(draw, tier="quick"):
         case["name"] = draw(st.sampled_from(["nonsense", "Numpy", "fixed", "prety", ""]))
     elif kind == "nonpositive_width":
         case["w"] = draw(st.sampled_from([0, 0.0, -1.0, -0.5]))
+    elif kind == "valid_int_edges":
+        dt = draw(st.sampled_from(["int16", "uint8", "uint16", "int32", "uint64", "int8"]))
+        info = np.iinfo(dt)
+        # rising edges that span most of the type's range (differences do not fit into the type)
+        pool = sorted(set([int(info.min), int(info.min) // 2, -3, 0, 5, int(info.max) // 2, int(info.max) - 1, int(info.max)]))
+        pool = [v for v in pool if info.min <= v <= info.max and abs(v) < 2 ** 53]
+        k = draw(st.integers(2, len(pool)))
+        idx = sorted(draw(st.lists(st.integers(0, len(pool) - 1), min_size=k, max_size=k, unique=True)))
+        case["bad"] = [pool[i] for i in idx]
+        case["edge_dtype"] = dt
+    if kind in ("unsorted_edges", "duplicate_edge", "overlapping_pairs", "zero_width_pair", "reversed_pair", "unsorted_pairs") and draw(st.integers(0, 2)) == 0:
+        # integer-valued version in a narrow / unsigned integer type
+        dt = draw(st.sampled_from(["uint8", "uint16", "uint32", "uint64", "int16", "int64"]))
+        n_ = draw(st.integers(2, 6))
+        ie = sorted(draw(st.lists(st.integers(0, 120), min_size=n_ + 1, max_size=n_ + 1, unique=True)))
+        i = draw(st.integers(0, len(ie) - 2))
+        if kind == "unsorted_edges":
+            ie[i], ie[i + 1] = ie[i + 1], ie[i]
+            case["bad"] = ie
+        elif kind == "duplicate_edge":
+            ie[i + 1] = ie[i]
+            case["bad"] = ie
+        else:
+            ps = [[a, b] for a, b in zip(ie[:-1], ie[1:])]
+            j = draw(st.integers(0, len(ps) - 2))
+            if kind == "overlapping_pairs":
+                ps[j][1] = ps[j + 1][1]
+            elif kind == "zero_width_pair":
+                ps[j][1] = ps[j][0]
+            elif kind == "reversed_pair":
+                ps[j] = [ps[j][1], ps[j][0]]
+            else:
+                ps[j], ps[j + 1] = ps[j + 1], ps[j]
+            case["bad"] = ps
+        case["edge_dtype"] = dt
     return case
 
 
